@@ -37,9 +37,19 @@ for rel, m in sorted(repo.modules.items()):
         for x in ast.walk(fi.node):
             nm = x.id if isinstance(x, ast.Name) else (x.attr if isinstance(x, ast.Attribute) else None)
             if nm in names and not (isinstance(x, ast.Name) and isinstance(x.ctx, ast.Store)):
+                via_self = isinstance(x, ast.Attribute) and isinstance(x.value, ast.Name) and x.value.id in ("self", "cls")
                 for k in names[nm]:
-                    if k != fi.key:
-                        refs[k].add(fi.key)
+                    if k == fi.key:
+                        continue
+                    if via_self and fi.cls is not None:
+                        # self.<name> inside a class that is unrelated (by inheritance) to the class defining k cannot mean k
+                        krel, kq = k.split("::")
+                        kcls = repo.modules[krel].classes.get(kq.split(".")[0]) if "." in kq else None
+                        if kcls is not None and kcls is not fi.cls:
+                            from sa.normalize import _ancestors_of
+                            if kcls.key not in _ancestors_of(repo, fi.cls) and fi.cls.key not in _ancestors_of(repo, kcls):
+                                continue
+                    refs[k].add(fi.key)
     for cn, ci in m.classes.items():
         st = set()
         for f in ci.methods.values():
@@ -47,6 +57,22 @@ for rel, m in sorted(repo.modules.items()):
                 if isinstance(x, ast.Attribute) and isinstance(x.ctx, ast.Store) and isinstance(x.value, ast.Name) and x.value.id == "self":
                     st.add(x.attr)
         inst["%s::%s" % (rel, cn)] = sorted(st)
+# first store of every instance attribute, in source order: (attr, method, text of the stored value)
+order = {}
+for rel, m in sorted(repo.modules.items()):
+    for cn, ci in m.classes.items():
+        seq, seen = [], set()
+        for fn in [x for x in ci.node.body if isinstance(x, (ast.FunctionDef, ast.AsyncFunctionDef))]:
+            for st in sorted([y for y in ast.walk(fn) if isinstance(y, ast.stmt)], key=lambda y: (y.lineno, y.col_offset)):
+                tg = st.targets if isinstance(st, ast.Assign) else ([st.target] if isinstance(st, (ast.AnnAssign, ast.AugAssign)) else [])
+                for t in tg:
+                    for x in ast.walk(t):
+                        if isinstance(x, ast.Attribute) and isinstance(x.ctx, ast.Store) and isinstance(x.value, ast.Name) and x.value.id == "self" and x.attr not in seen:
+                            seen.add(x.attr)
+                            v = getattr(st, "value", None)
+                            seq.append([x.attr, fn.name, ast.unparse(v) if v is not None and t is x else ""])
+        order["%s::%s" % (rel, cn)] = seq
+out["instance_attr_order"] = order
 out["refs"] = {k: sorted(v) for k, v in refs.items()}
 out["arity"] = arity
 out["instance_attrs"] = inst
